@@ -31,6 +31,13 @@ class ChainV:
         self.first, self.second, self.done_first = first, second, False
 
 
+class BufWriterV:
+    """std::io::BufWriter: bytes are held back until flush / drop; the flush at drop ignores errors (std behaviour)"""
+
+    def __init__(self, inner, cap=8192):
+        self.inner, self.buf, self.cap = inner, [], cap
+
+
 class SinkV:
     """writer that accepts `limit` bytes and then fails every write"""
 
@@ -269,7 +276,13 @@ def register(M):
         items = src.items() if isinstance(src, SliceRef) else (src.data if isinstance(src, StrV) else None)
         if items is None:
             raise Unsupported('write of %r' % (src,))
-        if isinstance(w, VecM):
+        if isinstance(w, BufWriterV):
+            w.buf.extend(items)
+            if len(w.buf) >= w.cap:
+                r = bufwriter_flush(ex, w)
+                if r.variant == 'Err':
+                    return r
+        elif isinstance(w, VecM):
             w.items.extend(items)
         elif isinstance(w, SinkV):
             # a sink with room for `limit` bytes: write() hands out short writes while room is left and fails once it is
@@ -310,8 +323,43 @@ def register(M):
             return Ok(Unit())
         return Ok(Unit()) if info.method == 'write_all' else Ok(mk_int(len(items), 'usize'))
 
+    def inner_write_all(ex, inner, items):
+        tgt = inner
+        while isinstance(tgt, Ptr):
+            tgt = tgt.load()
+        if isinstance(tgt, VecM):
+            tgt.items.extend(items)
+            return Ok(Unit())
+        if isinstance(tgt, SinkV):
+            room = None if tgt.limit is None else max(0, tgt.limit - len(tgt.out))
+            if room is None or len(items) <= room:
+                tgt.out.extend(items)
+                return Ok(Unit())
+            tgt.out.extend(items[:room])
+            tgt.failed = True
+            return Err(io_error('Other'))
+        raise Unsupported('BufWriter over %s' % type(tgt).__name__)
+
+    def bufwriter_flush(ex, w):
+        items, w.buf = w.buf, []
+        return inner_write_all(ex, w.inner, items) if items else Ok(Unit())
+    globals()['bufwriter_flush'] = bufwriter_flush
+
+    @M.path('BufWriter', ['new', 'with_capacity'])
+    def _bufwriter_new(ex, args, info):
+        if info.method == 'with_capacity':
+            c = args[0].concrete()
+            return BufWriterV(args[1], c if c is not None else 8192)
+        return BufWriterV(args[0])
+    M.drop_handlers['BufWriterV'] = lambda ex, v: bufwriter_flush(ex, v)          # errors are discarded, as std does
+
     @M.trait('Write', 'flush')
     def _flush(ex, args, info):
+        w = deref(args[0])
+        while isinstance(w, Ptr):
+            w = w.load()
+        if isinstance(w, BufWriterV):
+            return bufwriter_flush(ex, w)
         return Ok(Unit())
 
     @M.path('String', ['from_utf8', 'from_utf8_lossy'])
